@@ -196,6 +196,9 @@ class ModelDeque:
     return True
 
   def defer(self, x):
+    if len(self.deferred) >= self.cap:
+      self.overflowed = True        # the defer queue is bounded too; beyond it nothing is modelled
+      return
     self.deferred.append(x)
 
   def recall(self):
